@@ -592,8 +592,10 @@ func ZZ_C15_assertion_replay() {
 		if delta < -slack {
 			zz.Cover("replay:same-jti-new-assertion", true)
 			zz.Assert(err2 != nil, "replay: a new assertion reusing an unexpired jti is refused")
-		} else if delta > slack {
+		} else if delta > time.Second+slack {
 			// the first assertion (and with it the stored jti) has expired: reuse of the jti is outside the statement
+			// (witnesses are taken a full second after exp: how long the jti is remembered inside that second is
+			// the store's business and the native clock drifts)
 			zz.Cover("replay:same-jti-after-first-expired", true)
 		}
 	case 2:
